@@ -309,3 +309,50 @@ fn c18_seg_callback_state() {
     }
     std::mem::forget(t);
 }
+
+// ------------------------------------------------------------------------------------------------ cost probes (not registered)
+#[kani::proof]
+fn probe_insert_only() {
+    let mut t: Tree = SegExpTree::new(SegRange { min: 0, max: 31 }).unwrap();
+    let (a, b) = any_range(0, 31);
+    t.insert_by_range(SegRange { min: a, max: b }, Val { id: 1, exp: kani::any() });
+    std::mem::forget(t);
+}
+
+#[kani::proof]
+fn probe_new_only() {
+    let t: Tree = SegExpTree::new(SegRange { min: 0, max: 31 }).unwrap();
+    assert!(t.verif_places() == 63);
+    std::mem::forget(t);
+}
+
+#[kani::proof]
+fn probe_concrete_insert_symbolic_query() {
+    let mut t: Tree = SegExpTree::new(SegRange { min: 0, max: 31 }).unwrap();
+    let e1: u8 = kani::any();
+    t.insert_by_range(SegRange { min: 3, max: 17 }, Val { id: 1, exp: e1 });
+    let (c, d) = any_range(0, 31);
+    let time: u8 = kani::any();
+    let mut n = 0;
+    for _ in t.iter_by_range(SegRange { min: c, max: d }, time) {
+        n += 1;
+    }
+    assert_eq!(n, if e1 >= time && 3 <= d && c <= 17 { 1 } else { 0 });
+    std::mem::forget(t);
+}
+
+#[kani::proof]
+fn probe_all_concrete_ranges() {
+    let mut t: Tree = SegExpTree::new(SegRange { min: 0, max: 31 }).unwrap();
+    let e1: u8 = kani::any();
+    let e2: u8 = kani::any();
+    t.insert_by_range(SegRange { min: 3, max: 17 }, Val { id: 1, exp: e1 });
+    t.insert_by_range(SegRange { min: 16, max: 31 }, Val { id: 2, exp: e2 });
+    let time: u8 = kani::any();
+    let mut n = 0;
+    for _ in t.iter_by_range(SegRange { min: 10, max: 20 }, time) {
+        n += 1;
+    }
+    assert_eq!(n, (if e1 >= time { 1 } else { 0 }) + (if e2 >= time { 1 } else { 0 }));
+    std::mem::forget(t);
+}
